@@ -1,4 +1,5 @@
 import Slu.Model.Mem
+import Slu.Gen.XpandSites
 import SluProofs.Lemmas.Mem
 import SluProofs.Lemmas.MemStore
 import SluProofs.Lemmas.GrowList
@@ -15,6 +16,11 @@ interface, in a caller workspace of any length and alignment (where growing arra
 later array with an overlapping backward byte copy) and under library allocation (where the array
 moves to a fresh block), whatever the initial lengths and the sequence of growth factors — hence what
 the routines compute does not depend on the configuration.
+
+The one hypothesis about the *clients* that the refinement theorems need and cannot see in the allocator —
+"after every expansion the routine re-reads the base pointers of the arrays from `Glu`" — is tied to the
+source text on every run by `clients_refresh_pointers` at the end of this file (translator
+tools/xpandscan.py -> Slu/Gen/XpandSites.lean).
 
 Memory is modelled at byte level over an arbitrary byte type `β`; `rbyte σ s t j` is byte `j` of
 array `t` in allocator state `s` and store `σ`; `moveStore` is the data movement `dexpand` performs.
@@ -115,6 +121,71 @@ arrays. -/
 theorem queryspace_matches (w : Words) (n nzL nsL nzU : Int) :
     forLuExact w n nzL nsL nzU = nzL * w.dw + nzU * w.dw + nsL * w.iw + nzU * w.iw + (5 * n + 4) * w.iw := by
   unfold forLuExact; ring
+
+/-! ### The clients re-read the base pointers (regenerated from the source on every run)
+
+`mem_refines_growlist` / `storage_independence` speak about a client that addresses array `t` through the
+base the allocator state holds *now* (`rbyte σ s t j`).  A factor routine that keeps `lsub = Glu->lsub` in
+a local variable is such a client only as long as it re-reads the variable after every call that may move
+the array.  `tools/xpandscan.py` lists, from the clang syntax tree of the current working tree, every place
+in SRC/ outside `[sdcz]memory.c` where the storage may move (`[sdcz]LUMemXpand`, `[sdcz]expand`; `LUMemInit`,
+`LUWorkFree`, `StackCompress`; and, to a fixed point, every call of a routine that contains such a place)
+and, by a may-analysis over the control-flow graph of the enclosing function (loops included), every use of
+a local copy of `Glu->lusup|ucol|lsub|usub` — or of a pointer computed from one — that some path from the
+site reaches without the copy having been re-read.  Only copies of arrays that can move count: growing `T`
+moves `T` (library allocation) and every array stored after it (caller workspace; order LUSUP, UCOL, LSUB,
+USUB).  Each record also says whether the returned error code is tested, and the function left, before
+anything else happens. -/
+
+open Slu.Gen
+
+/-- a reviewed exception: uses of `var` (a copy of `Glu->field`) after a site of type `memType` in `func` -/
+structure StaleException where
+  file : String
+  func : String
+  memType : String
+  var : String
+  field : String
+  why : String
+
+/-- Benign cases (the variable is dead on every path after the site, the function returns at once, …), one
+line of justification each.  Empty: the scanner reports no possibly stale use at all on the current tree.
+(History: on its first run it reported one, a genuine defect — `[sdcz]gsitrf` used its block-local `lsub`
+after the LUSUP growth loop of the zero-column fill-in; in a caller workspace growing LUSUP slides LSUB —
+repaired in the library by commit 3a02e26, never listed here.) -/
+def allowList : List StaleException := []
+
+def staleOk (exc : List StaleException) (s : XpandSite) (u : StaleUse) : Bool :=
+  exc.any fun a => a.file == s.file && a.func == s.func && a.memType == s.memType && a.var == u.var && a.field == u.field
+
+/-- a site is in order: its type is one the scanner understood, the returned code (if the callee returns
+one) is tested before anything else happens, and every possibly stale use is a reviewed exception -/
+def siteOk (exc : List StaleException) (s : XpandSite) : Bool :=
+  s.memType != "?" && (s.errorChecked || !s.returnsCode) && s.stale.all (staleOk exc s)
+
+/-- **C07 `clients_refresh_pointers`**: the translator and its self check succeeded on the current source
+(all nine file families present for s, d, c, z; the number of expansion calls in the syntax tree equals the
+number in the text of every file); it saw the whole set of places where storage can move; and at every one
+of them the error code is tested at once and no local copy of a base pointer of an array that can move is
+used again before it is re-read from `Glu` (the allow-list of reviewed exceptions is empty).
+
+What this establishes: the hypothesis "the client re-reads the base pointers after every expansion" of
+`mem_refines_growlist` / `storage_independence` (and of the confinement theorems of C08) holds of the text
+of the factor routines, on every run, for every path the control-flow graph has.  What it does **not**
+establish: that the indices used with those pointers are below the current length (index arithmetic is
+not examined — sanitizers on exact-size workspaces and the differential check cover it), nor anything
+about aliases that do not come from `Glu` or addresses stored in memory.  The scanner is trusted (it has a
+built-in self test and errs towards reporting). -/
+theorem clients_refresh_pointers :
+    xpandOk = true ∧ 60 ≤ xpandDirect ∧ 36 ≤ xpandFiles ∧ 120 ≤ xpandSites.length ∧
+    xpandSites.all (siteOk allowList) = true := by
+  decide +kernel
+
+/-- the table has no possibly stale use and no untested error code at all: no exception is in use (to be
+restated over the remaining sites should a reviewed benign entry ever be added to `allowList`) -/
+theorem clients_refresh_pointers_strict :
+    (xpandSites.filter fun s => !s.stale.isEmpty || (s.returnsCode && !s.errorChecked)) = [] := by
+  decide +kernel
 
 /-! ### Non-vacuity: the hypotheses are satisfiable -/
 
